@@ -233,17 +233,20 @@ Proof.
     rewrite last_nth. f_equal. lia.
 Qed.
 
-Lemma correctFlux_length dt nf psd : length nf = S (length psd) ->
-  length (correctFlux Rops dt nf psd) = S (length psd).
+(* the first two stages of the corrector (per-face limits) *)
+Definition correctFlux2 (dt : R) (nf psd : list R) : list R := limitAbove Rops dt (limitBelow Rops dt nf psd) psd.
+
+Lemma correctFlux_length2 dt nf psd : length nf = S (length psd) ->
+  length (correctFlux2 dt nf psd) = S (length psd).
 Proof.
-  intros H. unfold correctFlux, limitAbove. simpl. rewrite zipWith_length. unfold tail_.
+  intros H. unfold correctFlux2, limitAbove. simpl. rewrite zipWith_length. unfold tail_.
   rewrite tl_length, limitBelow_length by assumption. lia.
 Qed.
 
-Lemma correctFlux_nth dt nf psd k : length nf = S (length psd) -> (k <= length psd)%nat ->
-  nthR (correctFlux Rops dt nf psd) k = cface dt nf psd k.
+Lemma correctFlux_nth2 dt nf psd k : length nf = S (length psd) -> (k <= length psd)%nat ->
+  nthR (correctFlux2 dt nf psd) k = cface dt nf psd k.
 Proof.
-  intros H Hk. unfold correctFlux, limitAbove, cface.
+  intros H Hk. unfold correctFlux2, limitAbove, cface.
   pose proof (limitBelow_length dt nf psd H) as HL.
   destruct k as [|k].
   - simpl nth. rewrite hd_nth. rewrite limitBelow_nth by (auto; lia). reflexivity.
@@ -275,12 +278,12 @@ Proof.
 Qed.
 
 (* after the correction no class loses more than it holds through either face *)
-Lemma limiter_faces dt nf psd k : length nf = S (length psd) -> 0 < dt -> nonneg psd ->
+Lemma limiter_faces2 dt nf psd k : length nf = S (length psd) -> 0 < dt -> nonneg psd ->
   (k < length psd)%nat ->
-  - nthR psd k <= nthR (correctFlux Rops dt nf psd) k * dt /\
-  nthR (correctFlux Rops dt nf psd) (S k) * dt <= nthR psd k.
+  - nthR psd k <= nthR (correctFlux2 dt nf psd) k * dt /\
+  nthR (correctFlux2 dt nf psd) (S k) * dt <= nthR psd k.
 Proof.
-  intros H Hdt Hp Hk. rewrite !correctFlux_nth by (auto; lia). unfold cface. split.
+  intros H Hdt Hp Hk. rewrite !correctFlux_nth2 by (auto; lia). unfold cface. split.
   - destruct (Nat.ltb_spec k (length psd)); [|lia].
     destruct (Nat.ltb_spec 0 k).
     + apply lim2_ge; auto. pose proof (Hp k); lra. apply lim1_ge; auto.
@@ -290,12 +293,12 @@ Proof.
 Qed.
 
 (* faces already within both bounds are left unchanged *)
-Lemma limiter_minimal dt nf psd k : length nf = S (length psd) -> (k <= length psd)%nat ->
+Lemma limiter_minimal2 dt nf psd k : length nf = S (length psd) -> (k <= length psd)%nat ->
   ((k < length psd)%nat -> - nthR psd k <= nthR nf k * dt) ->
   ((0 < k)%nat -> nthR nf k * dt <= nthR psd (k - 1)) ->
-  nthR (correctFlux Rops dt nf psd) k = nthR nf k.
+  nthR (correctFlux2 dt nf psd) k = nthR nf k.
 Proof.
-  intros H Hk H1 H2. rewrite correctFlux_nth by auto. unfold cface.
+  intros H Hk H1 H2. rewrite correctFlux_nth2 by auto. unfold cface.
   assert (E1 : (if (k <? length psd)%nat then lim1 dt (nthR nf k) (nthR psd k) else nthR nf k) = nthR nf k).
   { destruct (Nat.ltb_spec k (length psd)); auto. unfold lim1.
     destruct (Rltb _ _) eqn:E; auto. Rbool. specialize (H1 ltac:(lia)). lra. }
@@ -304,12 +307,12 @@ Proof.
 Qed.
 
 (* the corrector never reverses a face flux and never increases its magnitude *)
-Lemma limiter_shrinks dt nf psd k : length nf = S (length psd) -> (k <= length psd)%nat ->
+Lemma limiter_shrinks2 dt nf psd k : length nf = S (length psd) -> (k <= length psd)%nat ->
   0 < dt -> nonneg psd ->
-  (0 <= nthR nf k -> 0 <= nthR (correctFlux Rops dt nf psd) k <= nthR nf k) /\
-  (nthR nf k <= 0 -> nthR nf k <= nthR (correctFlux Rops dt nf psd) k <= 0).
+  (0 <= nthR nf k -> 0 <= nthR (correctFlux2 dt nf psd) k <= nthR nf k) /\
+  (nthR nf k <= 0 -> nthR nf k <= nthR (correctFlux2 dt nf psd) k <= 0).
 Proof.
-  intros H Hk Hdt Hp. rewrite correctFlux_nth by auto. unfold cface.
+  intros H Hk Hdt Hp. rewrite correctFlux_nth2 by auto. unfold cface.
   set (f := nthR nf k).
   assert (Hinv : 0 < / dt) by (apply Rinv_0_lt_compat; lra).
   assert (L1 : forall p, 0 <= p -> (0 <= f -> lim1 dt f p = f) /\ (f <= 0 -> f <= lim1 dt f p <= 0)).
@@ -335,63 +338,245 @@ Proof.
   - split; intros; lra.
 Qed.
 
-(* ---- CFL: classes that obey the step limit on both faces stay non-negative -------------- *)
+
+(* ---- third stage: class-wise limit ------------------------------------------------------ *)
+Definition posR (x : R) : R := if Rltb x 0 then 0 else x.      (* maximum(x, 0) *)
+Lemma maxT_0 x : maxT Rops x (zero Rops) = posR x.
+Proof. unfold maxT, posR. Rnorm. reflexivity. Qed.
+Lemma posR_nonneg x : 0 <= posR x.
+Proof. unfold posR. destruct (Rltb x 0) eqn:E; Rbool; lra. Qed.
+Lemma posR_ge x : x <= posR x.
+Proof. unfold posR. destruct (Rltb x 0) eqn:E; Rbool; lra. Qed.
+Lemma posR_pos x : 0 <= x -> posR x = x.
+Proof. intros H. unfold posR. destruct (Rltb x 0) eqn:E; Rbool; lra. Qed.
+Lemma posR_neg x : x <= 0 -> posR x = 0.
+Proof. intros H. unfold posR. destruct (Rltb x 0) eqn:E; Rbool; lra. Qed.
+
+(* total leaving class i within dt, and the scale applied to its two outgoing fluxes *)
+Definition outflowR (dt : R) (nf : list R) (i : nat) : R := (posR (- nthR nf i) + posR (nthR nf (S i))) * dt.
+Definition cscale (dt : R) (nf psd : list R) (i : nat) : R :=
+  if Rltb (nthR psd i) (outflowR dt nf i) then nthR psd i / outflowR dt nf i else 1.
+
+Lemma cscale_range dt nf psd i : nonneg psd -> 0 <= cscale dt nf psd i <= 1.
+Proof.
+  intros Hp. unfold cscale. pose proof (Hp i) as Hi.
+  destruct (Rltb (nthR psd i) (outflowR dt nf i)) eqn:E; Rbool; [|lra].
+  set (o := outflowR dt nf i) in *. assert (0 < o) by lra. assert (0 < / o) by (apply Rinv_0_lt_compat; lra).
+  unfold Rdiv. split; [nra|].
+  assert (nthR psd i * / o <= o * / o) by (apply Rmult_le_compat_r; lra).
+  rewrite Rinv_r in H1 by lra. lra.
+Qed.
+
+Lemma cscale_out dt nf psd i : nonneg psd -> outflowR dt nf i * cscale dt nf psd i <= nthR psd i.
+Proof.
+  intros Hp. unfold cscale. pose proof (Hp i) as Hi.
+  destruct (Rltb (nthR psd i) (outflowR dt nf i)) eqn:E; Rbool; [|lra].
+  set (o := outflowR dt nf i) in *. assert (0 < o) by lra.
+  unfold Rdiv. replace (o * (nthR psd i * / o)) with (nthR psd i * (o * / o)) by ring.
+  rewrite Rinv_r by lra. lra.
+Qed.
+
+Lemma scaleOf_length dt nf psd : length nf = S (length psd) ->
+  length (scaleOf Rops dt nf psd) = length psd.
+Proof.
+  intros H. unfold scaleOf. rewrite zip3_length. unfold init_, tail_. rewrite removelast_length, tl_length. lia.
+Qed.
+
+Lemma scaleOf_nth dt nf psd i : length nf = S (length psd) -> (i < length psd)%nat ->
+  nthR (scaleOf Rops dt nf psd) i = cscale dt nf psd i.
+Proof.
+  intros H Hi. unfold scaleOf.
+  rewrite (nth_zip3 _ _ _ _ _ _ 0 0 0) by (unfold init_, tail_; rewrite ?removelast_length, ?tl_length; lia).
+  unfold init_, tail_. rewrite nth_removelast by lia. rewrite nth_tl.
+  unfold cscale, outflowR, outflowOf. rewrite !maxT_0. unfold negT. Rnorm.
+  replace (0 - nthR nf i) with (- nthR nf i) by ring. reflexivity.
+Qed.
+
+Definition c3face (dt : R) (nf psd : list R) (k : nat) : R :=
+  let f := nthR nf k in
+  if ((k <? length psd)%nat && Rltb f 0)%bool then f * cscale dt nf psd k
+  else if ((0 <? k)%nat && Rltb 0 f)%bool then f * cscale dt nf psd (k - 1)
+  else f.
+
+Lemma limitClass_length dt nf psd : length nf = S (length psd) ->
+  length (limitClass Rops dt nf psd) = S (length psd).
+Proof.
+  intros H. unfold limitClass. cbn [length]. rewrite zipWith_length. unfold tail_.
+  rewrite tl_length, app_length, zipWith_length, scaleOf_length by exact H. unfold init_.
+  rewrite removelast_length. cbn [length]. lia.
+Qed.
+
+Lemma limitClass_nth dt nf psd k : length nf = S (length psd) -> (k <= length psd)%nat -> nonneg psd ->
+  nthR (limitClass Rops dt nf psd) k = c3face dt nf psd k.
+Proof.
+  intros H Hk Hp. unfold limitClass.
+  set (sc := scaleOf Rops dt nf psd).
+  set (nf1 := zipWith _ (init_ nf) sc ++ [last nf (zero Rops)]).
+  assert (Hsc : length sc = length psd) by (apply scaleOf_length; exact H).
+  assert (HL1 : length (zipWith (fun f s => if ltb Rops f (zero Rops) then mul Rops f s else f) (init_ nf) sc) = length psd).
+  { rewrite zipWith_length. unfold init_. rewrite removelast_length. lia. }
+  assert (N1 : forall j, (j <= length psd)%nat ->
+             nthR nf1 j = if ((j <? length psd)%nat && Rltb (nthR nf j) 0)%bool then nthR nf j * cscale dt nf psd j else nthR nf j).
+  { intros j Hj. unfold nf1. destruct (Nat.ltb_spec j (length psd)) as [Hlt|Hge].
+    - rewrite app_nth1 by lia.
+      rewrite (nth_zipWith _ _ _ _ _ 0 0) by (unfold init_; rewrite ?removelast_length; lia).
+      unfold init_. rewrite nth_removelast by lia. unfold sc. rewrite scaleOf_nth by (auto; lia).
+      Rnorm. cbn [andb]. reflexivity.
+    - rewrite app_nth2 by lia. replace (j - _)%nat with 0%nat by lia. cbn [andb nth].
+      rewrite last_nth. f_equal. lia. }
+  unfold c3face. destruct k as [|k].
+  - cbn [nth]. rewrite hd_nth. rewrite N1 by lia. cbn [Nat.ltb Nat.leb andb].
+    destruct ((0 <? length psd)%nat && Rltb (nthR nf 0) 0)%bool; reflexivity.
+  - cbn [nth]. rewrite (nth_zipWith _ _ _ _ _ 0 0);
+      [| unfold tail_; rewrite tl_length; unfold nf1; rewrite app_length; cbn [length]; lia | lia].
+    unfold tail_. rewrite nth_tl. rewrite N1 by lia. unfold sc. rewrite scaleOf_nth by (auto; lia).
+    change (0 <? S k)%nat with true. replace (S k - 1)%nat with k by lia. Rnorm. cbn [andb].
+    set (f := nthR nf (S k)).
+    destruct ((S k <? length psd)%nat && Rltb f 0)%bool eqn:E1.
+    + apply andb_true_iff in E1. destruct E1 as [_ E1]. Rbool.
+      pose proof (cscale_range dt nf psd (S k) Hp) as [Hs0 Hs1].
+      destruct (Rltb 0 (f * cscale dt nf psd (S k))) eqn:E2; Rbool; [nra|reflexivity].
+    + destruct (Rltb 0 f) eqn:E3; reflexivity.
+Qed.
+
+Lemma c3face_shrinks dt nf psd k : nonneg psd ->
+  (0 <= nthR nf k -> 0 <= c3face dt nf psd k <= nthR nf k) /\
+  (nthR nf k <= 0 -> nthR nf k <= c3face dt nf psd k <= 0).
+Proof.
+  intros Hp. unfold c3face. set (f := nthR nf k).
+  pose proof (cscale_range dt nf psd k Hp) as [A0 A1].
+  pose proof (cscale_range dt nf psd (k - 1) Hp) as [B0 B1].
+  destruct ((k <? length psd)%nat && Rltb f 0)%bool eqn:E1.
+  - apply andb_true_iff in E1. destruct E1 as [_ E1]. Rbool. split; intros; nra.
+  - destruct ((0 <? k)%nat && Rltb 0 f)%bool eqn:E2.
+    + apply andb_true_iff in E2. destruct E2 as [_ E2]. Rbool. split; intros; nra.
+    + split; intros; lra.
+Qed.
+
+(* ---- the full corrector ----------------------------------------------------------------- *)
+Lemma correctFlux_eq dt nf psd : correctFlux Rops dt nf psd = limitClass Rops dt (correctFlux2 dt nf psd) psd.
+Proof. reflexivity. Qed.
+
+Lemma correctFlux_length dt nf psd : length nf = S (length psd) ->
+  length (correctFlux Rops dt nf psd) = S (length psd).
+Proof. intros H. rewrite correctFlux_eq. apply limitClass_length. apply correctFlux_length2. exact H. Qed.
+
+Lemma correctFlux_nth dt nf psd k : length nf = S (length psd) -> (k <= length psd)%nat -> nonneg psd ->
+  nthR (correctFlux Rops dt nf psd) k = c3face dt (correctFlux2 dt nf psd) psd k.
+Proof.
+  intros H Hk Hp. rewrite correctFlux_eq. apply limitClass_nth; auto. apply correctFlux_length2. exact H.
+Qed.
+
+(* after the correction no class loses through one face more particles than it holds *)
+Lemma limiter_faces dt nf psd k : length nf = S (length psd) -> 0 < dt -> nonneg psd ->
+  (k < length psd)%nat ->
+  - nthR psd k <= nthR (correctFlux Rops dt nf psd) k * dt /\
+  nthR (correctFlux Rops dt nf psd) (S k) * dt <= nthR psd k.
+Proof.
+  intros H Hdt Hp Hk. rewrite !correctFlux_nth by (auto; lia).
+  destruct (limiter_faces2 dt nf psd k H Hdt Hp Hk) as [A B].
+  destruct (c3face_shrinks dt (correctFlux2 dt nf psd) psd k Hp) as [S1 S2].
+  destruct (c3face_shrinks dt (correctFlux2 dt nf psd) psd (S k) Hp) as [T1 T2].
+  pose proof (Hp k) as Hpk. split.
+  - destruct (Rle_dec 0 (nthR (correctFlux2 dt nf psd) k)) as [Hs|Hs].
+    + specialize (S1 Hs). nra.
+    + assert (Hs' : nthR (correctFlux2 dt nf psd) k <= 0) by lra. specialize (S2 Hs'). nra.
+  - destruct (Rle_dec 0 (nthR (correctFlux2 dt nf psd) (S k))) as [Hs|Hs].
+    + specialize (T1 Hs). nra.
+    + assert (Hs' : nthR (correctFlux2 dt nf psd) (S k) <= 0) by lra. specialize (T2 Hs'). nra.
+Qed.
+
+(* the corrector never reverses a face flux and never increases its magnitude *)
+Lemma limiter_shrinks dt nf psd k : length nf = S (length psd) -> (k <= length psd)%nat ->
+  0 < dt -> nonneg psd ->
+  (0 <= nthR nf k -> 0 <= nthR (correctFlux Rops dt nf psd) k <= nthR nf k) /\
+  (nthR nf k <= 0 -> nthR nf k <= nthR (correctFlux Rops dt nf psd) k <= 0).
+Proof.
+  intros H Hk Hdt Hp. rewrite correctFlux_nth by auto.
+  destruct (limiter_shrinks2 dt nf psd k H Hk Hdt Hp) as [A B].
+  destruct (c3face_shrinks dt (correctFlux2 dt nf psd) psd k Hp) as [S1 S2].
+  split; intros Hf.
+  - specialize (A Hf). destruct A as [A1 A2]. specialize (S1 A1). lra.
+  - specialize (B Hf). destruct B as [B1 B2]. specialize (S2 B2). lra.
+Qed.
+
+(* NO class becomes negative, whatever the growth field and step: the total leaving class k is at
+   most what it holds *)
+Lemma class_outflow_bound dt nf psd k : length nf = S (length psd) -> 0 < dt -> nonneg psd ->
+  (k < length psd)%nat ->
+  0 <= nthR psd k + dt * (nthR (correctFlux Rops dt nf psd) k - nthR (correctFlux Rops dt nf psd) (S k)).
+Proof.
+  intros H Hdt Hp Hk. rewrite !correctFlux_nth by (auto; lia).
+  set (nf2 := correctFlux2 dt nf psd).
+  pose proof (cscale_range dt nf2 psd k Hp) as [Hs0 Hs1].
+  pose proof (cscale_out dt nf2 psd k Hp) as Ho. unfold outflowR in Ho.
+  set (s := cscale dt nf2 psd k) in *.
+  set (a := posR (- nthR nf2 k)) in *. set (b := posR (nthR nf2 (S k))) in *.
+  assert (Ha : 0 <= a) by apply posR_nonneg. assert (Hb : 0 <= b) by apply posR_nonneg.
+  (* left face of class k *)
+  assert (L : - (a * s) <= c3face dt nf2 psd k).
+  { unfold c3face. destruct (Nat.ltb_spec k (length psd)); [|lia]. cbn [andb].
+    destruct (Rltb (nthR nf2 k) 0) eqn:E; Rbool.
+    - fold s. unfold a. rewrite posR_pos by lra. lra.
+    - unfold a. rewrite posR_neg by lra.
+      pose proof (cscale_range dt nf2 psd (k - 1) Hp) as [C0 C1].
+      destruct ((0 <? k)%nat && Rltb 0 (nthR nf2 k))%bool; nra. }
+  (* right face of class k *)
+  assert (Rr : c3face dt nf2 psd (S k) <= b * s).
+  { unfold c3face. change (0 <? S k)%nat with true. replace (S k - 1)%nat with k by lia. cbn [andb]. fold s.
+    pose proof (cscale_range dt nf2 psd (S k) Hp) as [C0 C1].
+    destruct (Rltb (nthR nf2 (S k)) 0) eqn:E; Rbool.
+    - unfold b. rewrite posR_neg by lra.
+      destruct ((S k <? length psd)%nat); cbn [andb].
+      + nra.
+      + destruct (Rltb 0 (nthR nf2 (S k))) eqn:E2; Rbool; lra.
+    - rewrite andb_false_r. unfold b. rewrite posR_pos by lra.
+      destruct (Rltb 0 (nthR nf2 (S k))) eqn:E2; Rbool; [lra|].
+      assert (nthR nf2 (S k) = 0) by lra. nra. }
+  nra.
+Qed.
+
+(* when no class would lose more than it holds, the corrector changes nothing *)
+Lemma limiter_minimal dt nf psd : length nf = S (length psd) -> 0 < dt -> nonneg psd ->
+  (forall i, (i < length psd)%nat -> outflowR dt nf i <= nthR psd i) ->
+  forall k, (k <= length psd)%nat -> nthR (correctFlux Rops dt nf psd) k = nthR nf k.
+Proof.
+  intros H Hdt Hp Hall.
+  assert (E2 : forall k, (k <= length psd)%nat -> nthR (correctFlux2 dt nf psd) k = nthR nf k).
+  { intros k Hk. apply limiter_minimal2; auto.
+    - intros Hlt. specialize (Hall k Hlt). unfold outflowR in Hall.
+      pose proof (posR_ge (- nthR nf k)). pose proof (posR_nonneg (nthR nf (S k))). nra.
+    - intros Hpos. specialize (Hall (k - 1)%nat ltac:(lia)). unfold outflowR in Hall.
+      replace (S (k - 1)) with k in Hall by lia.
+      pose proof (posR_ge (nthR nf k)). pose proof (posR_nonneg (- nthR nf (k - 1))). nra. }
+  assert (Eo : forall i, (i < length psd)%nat -> cscale dt (correctFlux2 dt nf psd) psd i = 1).
+  { intros i Hi. unfold cscale, outflowR. rewrite !E2 by lia. specialize (Hall i Hi). unfold outflowR in Hall.
+    destruct (Rltb _ _) eqn:E; Rbool; [lra|reflexivity]. }
+  intros k Hk. rewrite correctFlux_nth by auto. unfold c3face. rewrite E2 by exact Hk.
+  destruct (Nat.ltb_spec k (length psd)); destruct (Nat.ltb_spec 0 k); cbn [andb];
+    repeat match goal with |- context [if Rltb ?a ?b then _ else _] => destruct (Rltb a b) end;
+    rewrite ?Eo by lia; lra.
+Qed.
+
+(* ---- CFL: classes that obey the step limit stay non-negative - now a corollary: every class does *)
+Lemma class_nonneg dt bounds psd g nucRate Rnuc k :
+  wf bounds psd g -> nonneg psd -> 0 < dt -> 0 <= nucRate -> (k < length psd)%nat ->
+  0 <= nthR psd k + dt * nthR (correctdXdt Rops dt bounds psd g nucRate Rnuc) k.
+Proof.
+  intros Hwf Hp Hdt Hnuc Hk. pose proof Hwf as (Hn & Hb & Hg). unfold correctdXdt.
+  pose proof (netFlux_length bounds psd g Hwf) as HL.
+  rewrite dXdt_of_nth by (rewrite ?correctFlux_length; auto; lia).
+  pose proof (class_outflow_bound dt (netFlux Rops bounds psd g) psd k HL Hdt Hp Hk) as Hc.
+  destruct (Nat.eqb k _); nra.
+Qed.
+
 Lemma cfl_nonneg dt r bounds psd g nucRate Rnuc k :
   wf bounds psd g -> incr bounds -> nonneg psd -> 0 < dt -> 0 <= r <= 1/2 -> 0 <= nucRate ->
   (k < length psd)%nat ->
   dt * Rabs (nthR g k) / dR bounds k <= r ->
   dt * Rabs (nthR g (S k)) / dR bounds k <= r ->
   0 <= nthR psd k + dt * nthR (correctdXdt Rops dt bounds psd g nucRate Rnuc) k.
-Proof.
-  intros Hwf Hi Hp Hdt Hr Hnuc Hk Hc1 Hc2. pose proof Hwf as (Hn & Hb & Hg).
-  unfold correctdXdt.
-  pose proof (netFlux_length bounds psd g Hwf) as HL.
-  rewrite dXdt_of_nth by (rewrite ?correctFlux_length; auto; lia).
-  set (nf := netFlux Rops bounds psd g) in *.
-  pose proof (dR_pos bounds k Hi ltac:(lia)) as Hd.
-  pose proof (Hp k) as Hpk.
-  assert (Hinv : 0 < / dR bounds k) by (apply Rinv_0_lt_compat; lra).
-  (* uncorrected outflow through the left face is at most r * psd_k *)
-  assert (A : - (r * nthR psd k) <= nthR nf k * dt).
-  { unfold nf. rewrite upwind_local by (auto; lia).
-    destruct (Rlt_dec 0 (nthR g k)) as [Hpos|Hneg].
-    - destruct (0 <? k)%nat.
-      + pose proof (Hp (k-1)%nat). pose proof (dR_pos bounds (k-1) Hi ltac:(lia)) as Hd'.
-        assert (0 < / dR bounds (k-1)) by (apply Rinv_0_lt_compat; lra).
-        unfold Rdiv. assert (0 <= nthR g k * nthR psd (k-1) * / dR bounds (k-1)) by
-          (apply Rmult_le_pos; [apply Rmult_le_pos|]; lra). nra.
-      + nra.
-    - destruct (Nat.ltb_spec k (length psd)); [|lia].
-      rewrite Rabs_left1 in Hc1 by lra. unfold Rdiv in *.
-      assert (E : nthR g k * nthR psd k * / dR bounds k * dt = - (dt * - nthR g k * / dR bounds k) * nthR psd k) by ring.
-      rewrite E. nra. }
-  (* uncorrected outflow through the right face is at most r * psd_k *)
-  assert (B : nthR nf (S k) * dt <= r * nthR psd k).
-  { unfold nf. rewrite upwind_local by (auto; lia).
-    destruct (Rlt_dec 0 (nthR g (S k))) as [Hpos|Hneg].
-    - change (0 <? S k)%nat with true. cbn iota. replace (S k - 1)%nat with k by lia.
-      rewrite Rabs_right in Hc2 by lra. unfold Rdiv in *.
-      assert (E : nthR g (S k) * nthR psd k * / dR bounds k * dt = (dt * nthR g (S k) * / dR bounds k) * nthR psd k) by ring.
-      rewrite E. nra.
-    - destruct (Nat.ltb_spec (S k) (length psd)); [|nra].
-      pose proof (Hp (S k)). pose proof (dR_pos bounds (S k) Hi ltac:(lia)) as Hd'.
-      assert (0 < / dR bounds (S k)) by (apply Rinv_0_lt_compat; lra).
-      unfold Rdiv. assert (nthR g (S k) * nthR psd (S k) * / dR bounds (S k) <= 0).
-      { assert (nthR g (S k) * nthR psd (S k) <= 0) by nra. nra. }
-      nra. }
-  (* the corrector keeps both *)
-  assert (A' : - (r * nthR psd k) <= nthR (correctFlux Rops dt nf psd) k * dt).
-  { destruct (limiter_shrinks dt nf psd k HL ltac:(lia) Hdt Hp) as [S1 S2].
-    destruct (Rle_dec 0 (nthR nf k)) as [Hs|Hs].
-    - specialize (S1 Hs). nra.
-    - assert (Hs' : nthR nf k <= 0) by lra. specialize (S2 Hs'). nra. }
-  assert (B' : nthR (correctFlux Rops dt nf psd) (S k) * dt <= r * nthR psd k).
-  { destruct (limiter_shrinks dt nf psd (S k) HL ltac:(lia) Hdt Hp) as [S1 S2].
-    destruct (Rle_dec 0 (nthR nf (S k))) as [Hs|Hs].
-    - specialize (S1 Hs). nra.
-    - assert (Hs' : nthR nf (S k) <= 0) by lra. specialize (S2 Hs'). nra. }
-  destruct (Nat.eqb k _); nra.
-Qed.
+Proof. intros Hwf _ Hp Hdt _ Hnuc Hk _ _. apply class_nonneg; assumption. Qed.
 
 (* ---- step limit ----------------------------------------------------------------------- *)
 Lemma amax_ge x l : x <= amax Rops x l /\ Forall (fun y => y <= amax Rops x l) l.
